@@ -9,7 +9,7 @@ import yaml
 
 from ..model import dotted_name, src
 from ..report import AnalysisError, REPO, Where
-from ..sym import Ev, Tup, DictV, BoundLib, RaisedV, as_sym, is_sym, LibV
+from ..sym import Ev, Tup, DictV, BoundLib, RaisedV, as_sym, is_sym, LibV, whitespace_sep, kw_accept
 
 EXTRACT = "cij.cli.extract"
 GEO = "cij.cli.geotherm"
@@ -111,7 +111,7 @@ def fold_extract(ctx, model, temperature=None, pressure=None):
         f"{EXTRACT}:load_data": load_data, "pandas.DataFrame": dataframe,
         "numpy.argmin": lambda ev, a, k: ARGMIN(as_sym(a[0])), "numpy.abs": lambda ev, a, k: ABS(as_sym(a[0])),
         "identity": lambda ev, a, k: a[0],
-        "outtable.to_string": lambda ev, a, k: out.update(table=a[0], opts=k) or "TEXT",
+        "outtable.to_string": lambda ev, a, k: out.update(table=a[0], opts=k.all()) or "TEXT",
         "builtins.print": lambda ev, a, k: None,
     }
     ev = Ev(model, {}, intr, ctx=ctx)
@@ -163,7 +163,9 @@ def r_load(ctx, model):
             return Tup(["FILE0"], "list")
 
         def read_table(ev, a, k):
-            cap["read"] = (a, k)
+            kw_accept(k, "header", lambda v: v in (0, "infer") or v == 0)
+            kw_accept(k, "engine", lambda v: True)
+            cap["read"] = (a, {kk: k.get(kk) for kk in ("sep", "index_col", "delim_whitespace")})
             return Table("VAR")
 
         intr = {"glob.glob": glob_, "pandas.read_table": read_table, "builtins.float": lambda ev, a, k: a[0]}
@@ -171,7 +173,7 @@ def r_load(ctx, model):
         t = ev.call_def(f, model.mods[modname], ref, ["VARNAME"], {})
         a, k = cap.get("read", ((), {}))
         ok = isinstance(t, Table) and t.parsed == {"index": True, "columns": True} and a and a[0] == "FILE0" and k.get("index_col") == 0 \
-            and k.get("sep") in (r"\s+", "\\s+")
+            and (whitespace_sep(k.get("sep")) or k.get("delim_whitespace") is True)
         ctx.check(ok, f"{modname.split('.')[-1]}.load_data reads the first match with row labels in column 0 and float labels on both axes", w,
                   expected="read_table(glob(pattern)[0], sep=whitespace, index_col=0); columns/index -> float", found=f"kwargs {list(k)}, parsed {getattr(t, 'parsed', None)}",
                   explanation="the output table is not read with its first column as row labels, or labels stay strings (nearest-value search breaks)", key=f"{modname}.load")
@@ -244,9 +246,10 @@ def r_geotherm(ctx, model):
     geo = Geo()
     intr = {
         f"{GEO}:load_data": lambda ev, a, k: Table(a[0]),
-        "pandas.read_table": lambda ev, a, k: geo,
+        "pandas.read_table": lambda ev, a, k: cap.update(read=(a, {kk: k.get(kk) for kk in ("sep", "index_col", "header", "delim_whitespace")}))
+                             or kw_accept(k, "engine", lambda v: True) or geo,
         "scipy.interpolate.RectBivariateSpline": lambda ev, a, k: Spl(a, k),
-        "identity": lambda ev, a, k: a[0], "geo.to_string": lambda ev, a, k: cap.update(printed=(a[0], dict(k))) or "TEXT",
+        "identity": lambda ev, a, k: a[0], "geo.to_string": lambda ev, a, k: cap.update(printed=(a[0], k.all())) or "TEXT",
         "builtins.print": lambda ev, a, k: None,
     }
     ev = Ev(model, {}, intr, ctx=ctx)
@@ -274,6 +277,13 @@ def r_geotherm(ctx, model):
               expected="RectBivariateSpline(index, columns, values)(table[T column], table[P column], grid=False)", found="; ".join(bad) or "as required",
               explanation="axis roles of the bivariate spline and of its evaluation point disagree (temperature and pressure are swapped, or the "
                           "spline is evaluated on a grid instead of along the geotherm)", key="geotherm.axes")
+    ra, rk = cap.get("read", ((), {}))
+    ok_read = bool(ra) and ra[0] == "geo.txt" and (whitespace_sep(rk.get("sep")) or rk.get("delim_whitespace") is True) \
+        and rk.get("index_col") in (None, False) and (rk.get("header") in (None, "infer") or rk.get("header") == 0)
+    ctx.check(ok_read, "the geotherm file is read as a whitespace table with a header line and no index column", w,
+              expected="read_table(geotherm, sep=whitespace, index_col=None, header=0)", found=str(rk),
+              explanation="the geotherm's P/D/T columns are not all read as data columns named by the header line (a column is taken as "
+                          "the index, the header is treated as data, or the separator is not whitespace)", key="geotherm.read")
     printed = cap.get("printed")
     ok = printed is not None and printed[0] is geo and "overwrote" not in cap and geo.order == ["P", "D", "T", "c11s", "vp"] \
         and printed[1].get("index") is False
